@@ -48,6 +48,17 @@ def _vidx(v):
   return 'v?%r' % (v,)
 
 
+def _exit_of(raises):
+  """how the wrapped function leaves: True = an ordinary exception, 2 / 3 = exceptions that are not `Exception`s (the
+  SystemExit a killed phase thread gets, Ctrl-C): the restore must happen for every one of them (seeded/C20-13)"""
+  if raises == 2:
+    from openhtf.util import threads
+    return threads.ThreadTerminationError()
+  if raises == 3:
+    return KeyboardInterrupt()
+  return _Boom()
+
+
 class _Boom(Exception):
   pass
 
@@ -131,7 +142,7 @@ def _apply(conf, cfgmod, holders, op, trace):
       for i in inner:
         _apply(conf, cfgmod, holders, i, trace)
       if raises:
-        raise _Boom()
+        raise _exit_of(raises)
       return 'ret'
     kw = {KEYS[k]: POOL[v] for k, v in cfg}
     key = repr(op)
@@ -147,7 +158,7 @@ def _apply(conf, cfgmod, holders, op, trace):
     try:
       r = f()
       res = 'ok' if r == 'ret' else 'lost-return'
-    except _Boom:
+    except (_Boom, SystemExit, KeyboardInterrupt):
       res = 'raised'
   else:
     raise ValueError(op)
@@ -239,7 +250,7 @@ def _decorate_early(conf, op):
     for i in inner:
       _apply(c, cfgmod, holders, i, box['trace'])
     if raises:
-      raise _Boom()
+      raise _exit_of(raises)
     return 'ret'
   return conf.save_and_restore(wrapped, **{KEYS[k]: POOL[v] for k, v in cfg}), box
 
@@ -269,7 +280,7 @@ def _enc_op(op):
   if k == 'A':
     return 'A %d %d' % (op[1], op[2])
   if k == 'S':
-    return 'S %d %d %s %d %s' % (op[1], len(op[2]), ' '.join('%d %d' % tuple(x) for x in op[2]), len(op[3]),
+    return 'S %d %d %s %d %s' % (1 if op[1] else 0, len(op[2]), ' '.join('%d %d' % tuple(x) for x in op[2]), len(op[3]),
                                  ' '.join(_enc_op(i) for i in op[3]))
   raise ValueError(op)
 
@@ -303,6 +314,8 @@ ALPHABET = [
     ['S', False, [[0, 4]], [['L', True, False, [[1, 0]], 'dict']], 'direct'],
     ['S', True, [], [['L', True, False, [[0, 2]], 'kwargs'], ['D', 2, 2, False]], 'direct'],
     ['S', True, [[1, 1]], [['R']], 'partial'],
+    ['S', 2, [[0, 4]], [['L', True, False, [[1, 0]], 'dict']], 'direct'],
+    ['S', 3, [[1, 1]], [['L', True, False, [[0, 2]], 'kwargs']], 'partial'],
 ]
 
 CORPUS = [
@@ -330,7 +343,7 @@ def _rand_op(rng, depth=0):
   if r < 0.82:
     return ['A', rng.randrange(5), rng.randrange(5)]
   if depth < 2:
-    return ['S', rng.random() < 0.5, kv(rng.randint(0, 2)),
+    return ['S', rng.choice([False, False, True, True, 2, 3]), kv(rng.randint(0, 2)),
             [_rand_op(rng, depth + 1) for _ in range(rng.randint(0, 3))], rng.choice(['direct', 'partial', 'early'])]
   return ['R']
 
